@@ -272,7 +272,7 @@ def cases(tier, seed):
     for cls in CLASSES:
         variants = ['bib'] if cls == 'none' else ['bib', 'bcb']
         for variant in variants:
-            out.append(dict(id='%s-%s' % (cls, variant), cls=cls, variant=variant, seed=seed * 37 + idx, reps=(6 if tier == 'thorough' else 1)))
+            out.append(dict(id='%s-%s' % (cls, variant), cls=cls, variant=variant, seed=seed * 37 + idx, reps=(30 if tier == 'thorough' else 1)))
             idx += 1
     return out
 
